@@ -1061,6 +1061,25 @@ theorem vanished_sender_is_closed (Z : Zlib) (env : Env) (cfg : Cfg) (cl : Cl) (
     simp [this]
   | case6 cl t rest hc hs => simp
 
+/-- **a viewer that was view-only and is granted input later still delivers its clipboard**: the
+server's SupportedMessages list contains ClientCutText unconditionally (T0 `srvListsCutText`, and
+the harness reads the list back from LibVNCClient: `sup…:11:same`), so `SendClientCutText` writes
+the message, and once `viewOnly` is cleared the handler delivers exactly `t`. -/
+theorem granted_viewer_delivers (Z : Zlib) (env : Env) (cfg : Cfg) (cl : Cl) (c : LC) (t : Bytes)
+    (hs : srvListsCutText = true → c.supportsCut = true)
+    (ho : cl.isOpen = true) (hl : t.length ≤ srvMsgLimit) :
+    ∃ w, cliSendClassicIf c t = some w ∧
+      (feed Z env cfg { cl with viewOnly := false } w).cbs = [Cb.latin1 t] ∧
+      (feed Z env cfg { cl with viewOnly := true } w).cbs = [] := by
+  have hc : c.supportsCut = true := hs rfl
+  refine ⟨cliSendClassic t, by simp [cliSendClassicIf, hc], ?_, ?_⟩
+  · have h := client_to_app_exact_classic Z env cfg { cl with viewOnly := false } t [] ho hl
+    rw [List.append_nil] at h
+    rw [h, feed_nil]; simp
+  · have h := client_to_app_exact_classic Z env cfg { cl with viewOnly := true } t [] ho hl
+    rw [List.append_nil] at h
+    rw [h, feed_nil]; simp
+
 /-! ## non-vacuity: the theorems instantiated with the tagged-identity zlib -/
 
 /-- the "compression" the driver uses for streams the two libraries exchange: a tag byte, then the
@@ -1072,10 +1091,10 @@ def zId : Zlib :=
 theorem zId_law : ZLaw zId := ⟨fun _ => rfl, fun _ => rfl, fun _ => by simp [zId], fun _ => by simp [zId]⟩
 
 /-- client → application, extended: "hi" with the library client as sender arrives as "hi\0" -/
-example : ∃ w, cliSendUtf8 zId ⟨true, true, 1⟩ [104, 105] = some w ∧
+example : ∃ w, cliSendUtf8 zId ⟨true, true, 1, true⟩ [104, 105] = some w ∧
     (feed zId ⟨0⟩ ⟨true⟩ { ext := true } w).cbs = [Cb.utf8 [104, 105, 0]] := by
   obtain ⟨w, h1, h2⟩ := client_to_app_exact_partial zId zId_law ⟨0⟩ ⟨true⟩ { ext := true }
-    ⟨true, true, 1⟩ [104, 105] [] rfl rfl (by decide) (by decide) (by decide)
+    ⟨true, true, 1, true⟩ [104, 105] [] rfl rfl (by decide) (by decide) (by decide)
   refine ⟨w, h1, ?_⟩
   rw [List.append_nil] at h2
   rw [h2, feed_nil]; rfl
@@ -1107,9 +1126,9 @@ example : handleExt zId ⟨7⟩ ⟨true⟩ { ext := true } (be32 (2 ^ 28 + 1) ++
     (by decide) (by decide) (by decide) (by decide) (by decide) (by decide) rfl (by decide) (by decide)
 
 /-- server → client: a provide of "ok\0" decodes to the same three bytes -/
-example : (cliFeed zId ⟨0⟩ ⟨true, true, 0⟩ (SMsg.wire zId (.provide (record [111, 107, 0])))).cbs =
+example : (cliFeed zId ⟨0⟩ ⟨true, true, 0, true⟩ (SMsg.wire zId (.provide (record [111, 107, 0])))).cbs =
     [CCb.utf8 [111, 107, 0]] := by
-  have h := client_roundtrip_provide zId zId_law ⟨0⟩ ⟨true, true, 0⟩ [111, 107, 0] [] rfl (by simp)
+  have h := client_roundtrip_provide zId zId_law ⟨0⟩ ⟨true, true, 0, true⟩ [111, 107, 0] [] rfl (by simp)
     (by decide) (by decide)
   rw [List.append_nil] at h
   rw [h, cliFeed_nil]
